@@ -24,7 +24,9 @@ import (
 	"time"
 )
 
-const repoDir = "/repo"
+// repoDir is /repo; background sweeps that must not depend on the live tree point the harness
+// at a snapshot (VERIF_REPO_OVERRIDE, together with a go.mod replace edited in their own copy).
+var repoDir = "/repo"
 
 // verifDir is /verif, or the snapshot the wrapper script lives in (VERIF_ROOT, set by bin/check).
 var (
@@ -33,6 +35,9 @@ var (
 )
 
 func init() {
+	if r := os.Getenv("VERIF_REPO_OVERRIDE"); r != "" {
+		repoDir = r
+	}
 	if r := os.Getenv("VERIF_ROOT"); r != "" {
 		verifDir = r
 		harnessDir = filepath.Join(r, "harness")
